@@ -273,6 +273,42 @@ def numeric_type_cases(ctx):
                     n_ok += 1
                     ctx.nt(("numeric", fn_name, a_int))
     ctx.count("builder requests written with int arguments: same geometry as with floats", n_ok)
+    # the same request with the spacings passed BY KEYWORD (any subset, any order), and what the spec publishes about them
+    k_ok = 0
+    for nx, ny, sp, gs in ((3, 2, 5.0, 1.5), (2, 2, 6.0, 3.0), (1, 3, 2.5, 0.5)):
+        forms = [("single_col_zone.get_spec", single_col_zone.get_spec, (nx, ny, sp), [((nx, ny), {"spacing": sp}), ((nx,), {"spacing": sp, "num_y": ny}), ((), {"spacing": sp, "num_y": ny, "num_x": nx})]),
+                 ("stdlib.spec.single_zone_spec", old_spec.single_zone_spec, (nx, ny, sp), [((nx, ny), {"spacing": sp})]),
+                 ("two_col_zone.get_spec", two_col_zone.get_spec, (nx, ny, sp, gs),
+                  [((nx, ny, sp), {"gate_spacing": gs}), ((nx, ny), {"gate_spacing": gs, "spacing": sp}), ((nx, ny), {"spacing": sp, "gate_spacing": gs}), ((), {"gate_spacing": gs, "num_y": ny, "spacing": sp, "num_x": nx})])]
+        for fn_name, fn, pos, kws in forms:
+            B = fn(*pos)
+            for a, kw in kws:
+                rep = {"builder": fn_name, "args": list(a), "kwargs": kw, "same_request_positionally": list(pos)}
+                ctx.evaluations += 1
+                try:
+                    A = fn(*a, **kw)
+                except Exception as e:
+                    ctx.fail({"builder": fn_name, "problem": "raises", "call_form": "keywords"}, rep, f"{fn_name}(*{a}, **{kw}) raises {type(e).__name__}: {str(e)[:80]}")
+                    continue
+                if not same(A, B) or not (A == B):
+                    ctx.fail({"builder": fn_name, "problem": "geometry", "call_form": "keywords"}, rep,
+                             f"{fn_name}(*{a}, **{kw}) and {fn_name}{pos} (the same request) have different zones / site coordinates")
+                else:
+                    k_ok += 1
+                    ctx.nt(("keywords", fn_name, a, tuple(sorted(kw))))
+        # published constants agree with the geometry: whatever a two-column spec says about its gate spacing is the distance of a pair
+        T = two_col_zone.get_spec(nx, ny, sp, gs)
+        L, R = T.layout.static_traps["left_traps"], T.layout.static_traps["right_traps"]
+        pair = float(R.x_positions[0]) - float(L.x_positions[0])
+        ctx.evaluations += 1
+        for name, val in list(T.float_constants.items()) + list(T.int_constants.items()):
+            if "gate" in name and float(val) != pair:
+                ctx.fail({"builder": "two_col_zone.get_spec", "problem": "published constant disagrees with the geometry", "constant": name}, {"builder": "two_col_zone.get_spec", "args": [nx, ny, sp, gs]},
+                         f"two_col_zone.get_spec({nx},{ny},{sp},{gs}) publishes {name} = {val} but its left/right traps are {pair} apart")
+            if name in ("spacing", "pitch") and float(val) != sp:
+                ctx.fail({"builder": "two_col_zone.get_spec", "problem": "published constant disagrees with the geometry", "constant": name}, {"builder": "two_col_zone.get_spec", "args": [nx, ny, sp, gs]},
+                         f"two_col_zone.get_spec({nx},{ny},{sp},{gs}) publishes {name} = {val} but was asked for spacing {sp}")
+    ctx.count("builder requests written with keyword arguments: same spec as positionally", k_ok)
 
 
 def translated_builders(ctx):
